@@ -33,3 +33,101 @@ fn tp_read_case<const N: usize>() {
 fn transport_parameters_read_total_10() {
     tp_read_case::<10>();
 }
+
+// ---- PreferredAddress (transport parameter 0x0d): fixed layout, so every value and every input length that matters fits a harness ----
+
+fn any_preferred_address() -> PreferredAddress {
+    let v4 = if vk::any() {
+        Some(SocketAddrV4::new(Ipv4Addr::from(vk::any::<[u8; 4]>()), vk::any()))
+    } else {
+        None
+    };
+    let v6 = if vk::any() {
+        Some(SocketAddrV6::new(Ipv6Addr::from(vk::any::<[u8; 16]>()), vk::any(), 0, 0))
+    } else {
+        None
+    };
+    let cid_bytes: [u8; MAX_CID_SIZE] = vk::any();
+    let cid_len: usize = vk::any();
+    vk::assume(cid_len <= MAX_CID_SIZE);
+    PreferredAddress {
+        address_v4: v4,
+        address_v6: v6,
+        connection_id: ConnectionId::new(&cid_bytes[..cid_len]),
+        stateless_reset_token: vk::any::<[u8; RESET_TOKEN_SIZE]>().into(),
+    }
+}
+
+// @harness preferred_address_roundtrip props=C10 tier=quick kind=proof timeout=900 fn="PreferredAddress::{write,read,wire_size}, Codec for Ipv4Addr / Ipv6Addr / u16 / u8" desc="for every preferred address (either or both families, any addresses and ports other than the all-zero address with port 0 that encodes absence, connection IDs of 0..=20 bytes, any reset token): write produces exactly wire_size() bytes and read decodes them back to the same value, consuming all of them"
+#[cfg_attr(kani, kani::proof)]
+#[cfg_attr(kani, kani::unwind(24))]
+#[cfg_attr(verif_replay, test)]
+fn preferred_address_roundtrip() {
+    let pa = any_preferred_address();
+    // the all-zero address with port 0 is how an absent family is encoded, and a preferred address with neither family is illegal
+    vk::assume(pa.address_v4.is_some() || pa.address_v6.is_some());
+    if let Some(a) = pa.address_v4 {
+        vk::assume(!(a.ip().is_unspecified() && a.port() == 0));
+    }
+    if let Some(a) = pa.address_v6 {
+        vk::assume(!(a.ip().is_unspecified() && a.port() == 0));
+    }
+    let mut buf = Vec::with_capacity(64);
+    pa.write(&mut buf);
+    assert!(buf.len() == pa.wire_size() as usize, "wire_size differs from what write produces");
+    let mut r = &buf[..];
+    match PreferredAddress::read(&mut r) {
+        Ok(back) => {
+            assert!(back == pa, "decoded preferred address differs from the encoded one");
+            assert!(r.is_empty(), "decoder left bytes of the encoding unread");
+        }
+        Err(_) => panic!("the encoding of a legal preferred address was rejected"),
+    }
+    core::mem::forget(buf);
+}
+
+fn pa_read_case<const N: usize>() {
+    let data: [u8; N] = vk::any();
+    let len: usize = vk::any();
+    vk::assume(len <= N);
+    let mut r = &data[..len];
+    match PreferredAddress::read(&mut r) {
+        Ok(pa) => {
+            let cid_len = data[24] as usize;
+            assert!(cid_len <= MAX_CID_SIZE && pa.connection_id.len() == cid_len);
+            assert!(len >= 41 + cid_len && r.len() == len - (41 + cid_len), "consumed a different number of bytes than the layout says");
+            assert!(pa.address_v4.is_some() || pa.address_v6.is_some());
+        }
+        Err(_) => {}
+    }
+}
+
+// @harness preferred_address_read_total_44 props=C03,C10 tier=quick kind=bounded bound="inputs of at most 44 bytes (connection IDs of at most 3 bytes decode successfully; every truncation point of the fixed part is covered)" timeout=900 fn="PreferredAddress::read, Codec for Ipv4Addr / Ipv6Addr" desc="for every byte string of 0..=44 bytes: PreferredAddress::read never panics or reads past the end; on success it consumed exactly 41 + (connection-ID length) bytes; a string shorter than that is rejected"
+#[cfg_attr(kani, kani::proof)]
+#[cfg_attr(kani, kani::unwind(24))]
+#[cfg_attr(verif_replay, test)]
+fn preferred_address_read_total_44() {
+    pa_read_case::<44>();
+}
+
+// @harness codec_ip_decode_total props=C03,C10 tier=quick kind=bounded bound="inputs of at most 18 bytes (the decoders look at 4 and 16 bytes)" timeout=600 fn="Codec for Ipv4Addr::decode, Codec for Ipv6Addr::decode" desc="for every byte string of 0..=18 bytes: decoding an IPv4 / IPv6 address fails exactly when fewer than 4 / 16 bytes are left, never panics, and consumes exactly 4 / 16 bytes with the octets in order"
+#[cfg_attr(kani, kani::proof)]
+#[cfg_attr(kani, kani::unwind(20))]
+#[cfg_attr(verif_replay, test)]
+fn codec_ip_decode_total() {
+    let data: [u8; 18] = vk::any();
+    let len: usize = vk::any();
+    vk::assume(len <= 18);
+    let mut r = &data[..len];
+    if vk::any() {
+        match <Ipv4Addr as crate::coding::Codec>::decode(&mut r) {
+            Ok(ip) => assert!(len >= 4 && r.len() == len - 4 && ip.octets() == [data[0], data[1], data[2], data[3]]),
+            Err(_) => assert!(len < 4),
+        }
+    } else {
+        match <Ipv6Addr as crate::coding::Codec>::decode(&mut r) {
+            Ok(ip) => assert!(len >= 16 && r.len() == len - 16 && ip.octets()[0] == data[0] && ip.octets()[15] == data[15]),
+            Err(_) => assert!(len < 16),
+        }
+    }
+}
